@@ -81,3 +81,28 @@ def c16_impose_as_offset_drift(v):
             return False
         moved = True
     return moved
+
+
+@predicate
+def c01_additive_reducer_penalty(v):
+    """observed - expected == (n-1) * penalty at the point, for the additive reducer only"""
+    r = v['record']
+    if not r.get('clause', '').startswith(('c01:reported best energy equals', 'c01:stored member energy equals')):
+        return False
+    if r.get('reducer') != 'sum' or r.get('pen') is None:
+        return False
+    n, p, obs_, exp = r.get('n_components'), r.get('penalty_at_best'), r.get('observed'), r.get('expected')
+    if None in (n, p, obs_, exp) or n < 2 or not p:
+        return False
+    try:
+        return abs((obs_ - exp) - (n - 1) * p) <= 1e-9 * max(1.0, abs(obs_), abs(exp))
+    except TypeError:
+        return False
+
+
+@predicate
+def c02_symbolic_bounds_no_usable_side(v):
+    r = v['record']
+    return (r.get('clause', '').startswith('c02:SetStrictRanges raised while building the bounds constraint')
+            and r.get('error') == 'ZeroDivisionError' and r.get('in_symbolic') is True and r.get('usable_sides') == 0
+            and (r.get('mode') or [None])[0] is True and (r.get('mode') or [None, None])[1] is None)
